@@ -70,6 +70,13 @@ ListBad(tree, ref, pats, lsub, listed, dup) ==
                    \/ l.hasnochildren = HasChildren(tree, Canon(l.name)))
           THEN {"C17.HasChildrenExact"} ELSE {})
 
+(* RFC 5258: with the SUBSCRIBED selection option or the SUBSCRIBED return option
+   every listed mailbox carries \Subscribed exactly when it is subscribed.
+   listed entries here also have the field `subscribed`. *)
+SubAttrBad(tree, listed) ==
+    IF \E l \in listed : Canon(l.name) \in Names(tree) /\ l.subscribed # Node(tree, Canon(l.name)).sub
+    THEN {"C17.SubscribedAttrExact"} ELSE {}
+
 ---------------------------------------------------------------------------
 (* C17: namespace commands.  ev: [act, status, name, name2]; trees are the   *)
 (* projected (disk + database) trees before and after.                        *)
